@@ -238,6 +238,17 @@ fn gen(tier: Tier) -> Vec<XCase> {
             v.push(XCase { e: bin(op, num(100), s.clone()), group: "symbols" });
             v.push(XCase { e: bin(op, s.clone(), syms[0].clone()), group: "symbols" });
         }
+        // the same symbol more than once in one expression, in the same and in other spellings
+        if let E::Sym(name, val) = s {
+            let up = E::Sym(name.to_uppercase(), *val);
+            let lo = E::Sym(name.to_lowercase(), *val);
+            for op in BINOPS {
+                v.push(XCase { e: bin(op, s.clone(), s.clone()), group: "symbols" });
+                v.push(XCase { e: bin(op, up.clone(), lo.clone()), group: "symbols" });
+                v.push(XCase { e: bin(op, bin(BinOp::Add, s.clone(), up.clone()), s.clone()), group: "symbols" });
+            }
+            v.push(XCase { e: bin(BinOp::Add, bin(BinOp::Mul, s.clone(), s.clone()), bin(BinOp::Mul, lo.clone(), up.clone())), group: "symbols" });
+        }
         for u in UNOPS {
             v.push(XCase { e: un(u, s.clone()), group: "symbols" });
         }
